@@ -3,15 +3,17 @@
    precision it is the correctly rounded value.
    Decimal: theorems about the model of fpdec's Display / from_str.
    Binary64: theorems about the model of core's flt2dec / dec2flt; the shortest
-   digit search is used only after its result passed the read-back test, so the
-   parse-back statement holds by construction on that branch and is conditional
-   on the same test for the complete-expansion fallback.
+   digit search is used only after its result passed the read-back test, and the
+   complete-expansion fallback is proved to read back (Flocq: the correctly
+   rounded quotient of an exactly representable value is that value), so every
+   non-NaN double parses back identically; under a precision the digits are the
+   half-even rounding of m * 2^e * 10^p.
    Only statements; every proof is `exact <lemma>`. *)
 From Coq Require Import ZArith List Bool.
 From Coq Require Import Floats.SpecFloat.
 From Flocq Require Import IEEE754.BinarySingleNaN IEEE754.Binary IEEE754.Bits.
 From QV Require Import Rt.Prelude Rt.Amount Rt.Quantity Rt.Fmt Gen.Prefixes Gen.Kernels Gen.KernelsFmt
-  Amount.DecModel Amount.Dec Amount.DecStr Proofs.C15 Proofs.C15dec Proofs.C15f64.
+  Amount.DecModel Amount.Dec Amount.DecStr Proofs.C15 Proofs.C15dec Proofs.C15f64 Proofs.C15f64exp Proofs.C15f64prec.
 Import ListNotations.
 Local Open Scope Z_scope.
 
@@ -73,11 +75,30 @@ Theorem C15_f64_digits_checked : forall m e ds k,
   shortest_search m e = Some (ds, k) -> roundtrip_ok m e ds k = true -> digits_ok m e = true.
 Proof. exact digits_ok_shortest. Qed.
 
-(** every zero (with its sign), infinity and finite double whose digits pass that test parses back identically *)
-Theorem C15_f64_parse_back : forall x : binary64,
-  match x with B754_finite _ _ _ m e _ => digits_ok m e = true | B754_nan _ _ _ _ _ => False | _ => True end ->
+(** ... and the complete expansion used otherwise reads back too, so the test always succeeds *)
+Theorem C15_f64_digits_always : forall (m : positive) (e : Z), SpecFloat.bounded 53 1024 m e = true -> digits_ok m e = true.
+Proof. exact digits_ok_always. Qed.
+
+(** every double that is not a NaN - zeros with their sign, infinities, subnormals - parses back identically *)
+Theorem C15_f64_parse_back : forall x : binary64, is_nan 53 1024 x = false ->
   f64_parse (f64_to_text fspec_default x) = Some x.
-Proof. exact f64_display_parses_back. Qed.
+Proof. exact f64_display_parses_back_all. Qed.
+
+(** under a precision p the printed digits are those of [f64_scaled m e p]: exact for e >= 0, else m * 10^p / 2^-e rounded half-to-even *)
+Theorem C15_f64_precision_rounding : forall (m : positive) (e : Z) (p : N),
+  (0 <= e -> f64_scaled m e p = Zpos m * 2 ^ e * 10 ^ Z.of_N p) /\
+  (e < 0 -> 2 * Z.abs (f64_scaled m e p * 2 ^ (- e) - Zpos m * 10 ^ Z.of_N p) <= 2 ^ (- e)).
+Proof. exact f64_scaled_rounded. Qed.
+
+(** ... laid out with exactly p fractional digits: the text reads back as the double nearest to scaled / 10^p *)
+Theorem C15_f64_precision_text : forall (s : bool) (m : positive) (e : Z) (H : SpecFloat.bounded 53 1024 m e = true) (p : N),
+  f64_scaled m e p <> 0 ->
+  parse_unsigned_sf (f64_body (Some p) (B754_finite 53 1024 s m e H)) = Some (round_ratio (f64_scaled m e p) (10 ^ Z.of_N p)).
+Proof. exact f64_precision_text. Qed.
+
+Theorem C15_f64_precision_zero : forall (s : bool) (m : positive) (e : Z) (H : SpecFloat.bounded 53 1024 m e = true) (p : N),
+  f64_scaled m e p = 0 -> f64_body (Some p) (B754_finite 53 1024 s m e H) = zero_text p.
+Proof. exact f64_precision_text_zero. Qed.
 
 Theorem C15_f64_nan : forall s pl H, exists x,
   f64_parse (f64_to_text fspec_default (B754_nan 53 1024 s pl H)) = Some x /\ is_nan 53 1024 x = true.
@@ -92,5 +113,9 @@ Print Assumptions C15_dec_plain_parse_back.
 Print Assumptions C15_dec_quantity_plain.
 Print Assumptions C15_dec_quantity_fmt.
 Print Assumptions C15_f64_digits_checked.
+Print Assumptions C15_f64_digits_always.
 Print Assumptions C15_f64_parse_back.
+Print Assumptions C15_f64_precision_rounding.
+Print Assumptions C15_f64_precision_text.
+Print Assumptions C15_f64_precision_zero.
 Print Assumptions C15_f64_nan.
